@@ -57,6 +57,7 @@ func storageSize(m Msg, ver int, keys, times bool) int64 {
 func hooksC12() Hooks {
 	h := Hooks{Strict: []string{"Delete"}}
 	h.AfterOpen = func(r *Run) { r.Ctx["layout"] = segLayout(r.Dir) }
+	h.Refresh = h.AfterOpen
 	h.AfterStep = func(r *Run, op *Op) {
 		r.Ctx["layout"] = segLayout(r.Dir)
 		r.noteState()
